@@ -15,6 +15,9 @@ pub struct Dec {
     pub state: H263State,
     pub reader: H263Reader<Growing>,
     pub src: Growing,
+    /// "noprobe": do not look at the reader after a call (looking makes it buffer the next bytes, which
+    /// is itself a use of the reader between two calls; histories run both ways)
+    pub noprobe: bool,
 }
 
 #[derive(Default)]
@@ -107,7 +110,9 @@ fn observe(d: &mut Dec, ev: &mut Value, planes: bool) {
         }
     }
     ev["ropt"] = json!(d.state.verif_running_options().bits());
-    ev["probe"] = probe(&mut d.reader);
+    if !d.noprobe {
+        ev["probe"] = probe(&mut d.reader);
+    }
 }
 
 pub fn history(ctx: &mut Ctx, cmd: &Value) -> Vec<Value> {
@@ -118,7 +123,7 @@ pub fn history(ctx: &mut Ctx, cmd: &Value) -> Vec<Value> {
     match op {
         "new" => {
             let (reader, src) = fresh_reader(cmd["maxread"].as_u64().unwrap_or(0) as usize);
-            ctx.decs.insert(id, Dec { state: H263State::new(opts(cmd)), reader, src });
+            ctx.decs.insert(id, Dec { state: H263State::new(opts(cmd)), reader, src, noprobe: cmd["noprobe"].as_bool().unwrap_or(false) });
             ev["ret"] = json!("ok");
             ev["rc"] = json!("ok");
         }
@@ -224,7 +229,7 @@ pub fn history(ctx: &mut Ctx, cmd: &Value) -> Vec<Value> {
             Some(d) => {
                 let r = guarded(|| {
                     let p = d.state.get_last_picture().expect("no picture");
-                    let (w, _h) = p.format().into_width_and_height().unwrap();
+                    let (w, ph) = p.format().into_width_and_height().unwrap();
                     let q = p.as_header().quantizer as usize;
                     let s = h263_rs_deblock::deblock::QUANT_TO_STRENGTH[q.min(31)];
                     let (y, cb, cr) = p.as_yuv();
@@ -233,24 +238,32 @@ pub fn history(ctx: &mut Ctx, cmd: &Value) -> Vec<Value> {
                     let cb2 = h263_rs_deblock::deblock::deblock(cb, cw, s);
                     let cr2 = h263_rs_deblock::deblock::deblock(cr, cw, s);
                     let rgba = h263_rs_yuv::bt601::yuv420_to_rgba(&y2, &cb2, &cr2, w as usize);
-                    (s, y.to_vec(), cb.to_vec(), cr.to_vec(), cw, w, q, rgba)
+                    (s, y.to_vec(), cb.to_vec(), cr.to_vec(), cw, w, ph, q, rgba)
                 });
                 match r {
-                    Ok((s, y, cb, cr, cw, w, q, rgba)) => {
+                    Ok((s, y, cb, cr, cw, w, ph, q, rgba)) => {
                         ev["ret"] = json!("ok");
                         ev["rc"] = json!("ok");
                         ev["s"] = json!(s);
                         ev["q"] = json!(q);
                         ev["w"] = json!(w);
+                        ev["ph"] = json!(ph);
                         ev["cw"] = json!(cw);
-                        ev["y"] = json!(y);
-                        ev["cb"] = json!(cb);
-                        ev["cr"] = json!(cr);
                         ev["len"] = json!(rgba.len());
-                        ev["out"] = json!(rgba
-                            .chunks(4)
-                            .map(|p| ((p[0] as i64) - 128) * 16_777_216 + (p[1] as i64) * 65_536 + (p[2] as i64) * 256 + p[3] as i64)
-                            .collect::<Vec<_>>());
+                        if cmd["lens"].as_bool().unwrap_or(false) {
+                            // very large pictures: only the lengths are recorded
+                            ev["ylen"] = json!(y.len());
+                            ev["cblen"] = json!(cb.len());
+                            ev["crlen"] = json!(cr.len());
+                        } else {
+                            ev["y"] = json!(y);
+                            ev["cb"] = json!(cb);
+                            ev["cr"] = json!(cr);
+                            ev["out"] = json!(rgba
+                                .chunks(4)
+                                .map(|p| ((p[0] as i64) - 128) * 16_777_216 + (p[1] as i64) * 65_536 + (p[2] as i64) * 256 + p[3] as i64)
+                                .collect::<Vec<_>>());
+                        }
                     }
                     Err(m) => {
                         ev["ret"] = json!(format!("panic:{}", m));
